@@ -77,7 +77,8 @@ def report_forms(R, ctx, cfg, tag, which=('cost', 'res', 'inf')):
         return P_atom(('min', ks[0], ks[1]))
 
     def ab(a):
-        return P_atom(('abs', P_key(a)))
+        from engine.linform import P_abs_atom
+        return P_abs_atom(a)
     xPx2 = P_mul(P_mul(P_atom('dot_xPx'), P_mul(tinv, tinv)), P_const(HALF))
     cp = P_mul(P_add(P_mul(P_atom('dot_qx'), tinv), xPx2), cinv)
     cd = P_mul(P_add(P_neg(P_mul(P_atom('dot_bz'), tinv)), xPx2, -1), cinv)
